@@ -77,7 +77,7 @@ mod cex {
         let bits: u32 = kani::any();
         let n: u8 = kani::any();
         let clear_at: u8 = kani::any();
-        kani::assume(n <= 24);
+        kani::assume(n & 0x7F <= 24);
         assert!(scenario_bits(bits, n, clear_at, false));
     }
 
@@ -89,7 +89,7 @@ mod cex {
         let b2: u8 = kani::any();
         let b3: u8 = kani::any();
         let n: u8 = kani::any();
-        kani::assume(n <= 4);
+        kani::assume(n & 0x7F <= 4);
         assert!(scenario_stream(1, [b0, b1, b2, b3], n, false));
     }
 
@@ -101,7 +101,7 @@ mod cex {
         let b2: u8 = kani::any();
         let b3: u8 = kani::any();
         let n: u8 = kani::any();
-        kani::assume(n <= 4);
+        kani::assume(n & 0x7F <= 4);
         assert!(scenario_stream(2, [b0, b1, b2, b3], n, false));
     }
 
